@@ -310,7 +310,7 @@ var targets = []*target{
 		}},
 	{ID: "openclosepb.ModelServer", Pkg: "openclosepb", File: "model_server.go", Type: "ModelServer",
 		Service: "smartcore.traits.OpenCloseApi", Update: "UpdatePositions",
-		Note: "model with two initial positions (UP, LEFT) and one preset; every value changes every position",
+		Note: "model with two initial positions (UP, LEFT) and one preset; values write both positions, one position, or select the preset",
 		build: func(safe bool, names []string) *stack {
 			up, left := traits.OpenClosePosition_UP, traits.OpenClosePosition_LEFT
 			pos := func(u, l float32) []*traits.OpenClosePosition {
@@ -320,7 +320,11 @@ var targets = []*target{
 				openclosepb.WithInitialPositions(pos(0, 0)...),
 				openclosepb.WithPreset(&traits.OpenClosePositions_Preset{Name: "half", Title: "Half"}, pos(50, 50)...)))
 			return &stack{
-				values: msgs(&traits.OpenClosePositions{States: pos(100, 90)}, &traits.OpenClosePositions{States: pos(20, 30)},
+				// two of the values write one position only: the resource is the aggregate of all positions
+				values: msgs(&traits.OpenClosePositions{States: pos(100, 90)},
+					&traits.OpenClosePositions{States: []*traits.OpenClosePosition{{Direction: up, OpenPercent: 85, Resistance: traits.OpenClosePosition_SLOW}}},
+					&traits.OpenClosePositions{States: pos(20, 30)},
+					&traits.OpenClosePositions{States: []*traits.OpenClosePosition{{Direction: left, OpenPercent: 65}}},
 					&traits.OpenClosePositions{Preset: &traits.OpenClosePositions_Preset{Name: "half"}}, &traits.OpenClosePositions{States: pos(70, 10)}),
 				bad: msgs(&traits.OpenClosePositions{Preset: &traits.OpenClosePositions_Preset{Name: "no-such-preset"}}),
 				conn: assemble(safe, names, srv, openclosepb.WrapApi, func() (adder, traits.OpenCloseApiServer) { r := openclosepb.NewApiRouter(); return r, r },
